@@ -100,6 +100,14 @@ CLAIMED = {
    design="DESIGN.md §3 C11",
    note=BASE_NOTE + "pixel fidelity inherits C01's partial status (decided per run by the oracle). Indices outside a supplied palette are accepted by the API (not part of the property's rejection list). F7 repaired (fix 13eac94).",
    technique="Coq proof (iff characterisation of acceptance; provenance) + model replay + spec oracle"),
+ "C12": dict(
+   text="Machine-checked (Properties/C12.v) on a plan + executor model of `optimize` over an abstract file system with a fault plan (the k-th operation fails, or the process is killed at it), for every file system, optimiser behaviour, routing and fault: "
+        "whatever fails or wherever the process dies up to and including the computation, files and standard output are exactly as before; every failing operation of the plan yields an error result; --pretend touches nothing; only the destination is ever created/written; "
+        "in place without improvement performs no write operation; --preserve copies mode and both timestamps. Tied to the code by running the REAL executable under strace: the normalised system-call trace of each routing equals the model's plan and the final files equal the model's; "
+        "an error return is injected into each operation of the plan and SIGKILL is delivered at every system call before the write phase, the directory being compared with its prior state.",
+   design="DESIGN.md §3 C12",
+   note=BASE_NOTE + "PARTIAL (runtime): kernel/file-system semantics (a failed call has no effect, durability of completed writes) and strace's reporting are trusted; a crash during the write phase is outside the property. close() errors are discarded by the Rust standard library and are therefore not reportable.",
+   technique="Coq proof (closed form of a fault-plan executor; structure of the operation plan) + strace trace conformance + exhaustive syscall-level fault injection"),
  "C13": dict(
    text="Machine-checked (Properties/C13.v): the clock is an oracle of the model, so the pipeline theorems hold for every pattern of answers; never-larger under any landing point; the evaluator returns the minimal completed trial "
         "whichever trials were skipped. Tied to the code through the deadline hook: for EVERY k in 0..K (K = consultations of the untimed run) the run with expiry at the k-th check is replayed on the model under the recorded clock, "
